@@ -4,9 +4,11 @@
    Decided today by the C01 check on generated histories (direct oracle on the real library + byte
    and dump correspondence with the model).  Proved in Coq, for all inputs: the layout of the written
    file (C03), the round trip of the whole data section — which carries every x, y, z, RESIDUAL and
-   analog sample — and of every scalar; the remaining stage (parameter records, section chain, header
-   fields) is validated, not yet proved. *)
-From EZ Require Import Base Bytes Types Api Enc Dec Float32 Run Proofs_Bytes Proofs_Codec Proofs_Section.
+   analog sample — of every scalar, and of every parameter record and group record (Proofs_Record.v: Parameter::read
+   on the bytes of Parameter::write returns the parameter, for every well-formed parameter of every type and
+   dimension); the remaining stages (chaining of the records by the walker, header fields) are validated, not yet proved. *)
+From Coq Require Import Lia ZifyN.
+From EZ Require Import Base Bytes Types Api Enc Dec Float32 Run Proofs_Bytes Proofs_Codec Proofs_Section Proofs_Record.
 Local Open Scope N_scope.
 
 (* the frames of a saved object come back bit for bit: the data section written by save is read by the
@@ -26,6 +28,38 @@ Theorem C01_partial_data_position : forall s bytes, wf_header (hdr s) -> save s 
     nlen bytes = 512 * blocks + nlen (data_section (frames s)).
 Proof. exact save_layout. Qed.
 Print Assumptions C01_partial_data_position.
+
+(* every parameter written by save is read back by the loader as the same parameter (name upper-cased): type,
+   lock flag, dimensions, every integer / byte / float / string value, description.  wf_param is the list of the
+   format's capacity limits (name 1..127 characters, description <= 255, <= 255 dimensions of <= 255 entries, 16-bit
+   integers, strings without NUL or trailing spaces not longer than their declared width, values covering the dimensions). *)
+Theorem C01_partial_parameter_record : forall p gid, wf_param p -> bstr_eqb (p_name p) nm_DATA_START = false ->
+  exists b0 b1 bytes, param_record p gid = Ok (b0 :: b1 :: bytes, None) /\ b1 = low8 gid /\
+    forall st r, st_fail st = false -> st_rest st = bytes ++ r ->
+      exists nxt, read_param (hex2int [b0]) st = Ok ((upper_name p, nxt), adv st (length bytes) r).
+Proof. exact param_record_roundtrip. Qed.
+Print Assumptions C01_partial_parameter_record.
+
+Theorem C01_partial_group_record : forall g old st r,
+  wf_group_hdr g -> st_fail st = false ->
+  st_rest st = upper (g_name g) ++ le_bytes 2 (3 + zlen (g_desc g))%Z ++ [low8 (zlen (g_desc g))] ++ g_desc g ++ r ->
+  g_desc g <> [] \/ g_desc old = [] ->
+  exists nxt, read_group old (hex2int [name_len_byte (g_name g) (g_lock g)]) st =
+    Ok ((mkGroup (upper (g_name g)) (g_desc g) (g_lock g) (g_params old), nxt),
+        adv st (length (g_name g) + 2 + (1 + length (g_desc g))) r).
+Proof. exact read_group_written. Qed.
+Print Assumptions C01_partial_group_record.
+
+(* non-vacuity: parameters of each type are well formed (a 2 x 3 string matrix, a 2 x 2 integer matrix, a float scalar) *)
+Example C01_wf_param_nonvacuous :
+  wf_param (mkParam [76;65;66;69;76;83] [100] true TChar [3; 2] [] [] [[97;98]; [99]]) /\
+  wf_param (mkParam [90;69;82;79] [] false TInt [2; 2] [1; -32768; 32767; 0]%Z [] []) /\
+  wf_param (mkParam [82;65;84;69] [] false TFloat [1] [] [1120403456] []).
+Proof.
+  unfold wf_param, name_ok, desc_ok, dims_ok, typed_ok, str_ok, no_nul, int16, wf32, byte_ok, LIMC. cbn.
+  repeat split; try lia; try discriminate; repeat constructor; try lia; try discriminate.
+Qed.
+Print Assumptions C01_wf_param_nonvacuous.
 
 (* witness of the repaired defect (residual lost on every copy): the model of the repaired code keeps it
    through frame(), save and load *)
